@@ -2622,6 +2622,11 @@ func t2c02AlgoNames(c *Ctx) {
 			}
 		}
 		c.Check(len(parse.Call.Args) >= 1 && isDataString(parse.Call.Args[0]) && after, rule, pkey, w.Pos(parse.Pos()), "numeric fallback parses the same string, after the name lookup", "strconv.ParseUint is not applied to <data>.(string) after the name lookup")
+		base, isK := int64(0), false
+		if len(parse.Call.Args) >= 2 {
+			base, isK = intConst(parse.Call.Args[1])
+		}
+		c.Check(isK && base == 10, rule, "hook|an algorithm given by number is read as decimal", w.Pos(parse.Pos()), "base 10", "the number is not parsed in base 10 (base 0 reads a leading 0 as octal and 0x as hex: \"010\" selects algorithm 8's slot)")
 	}
 
 	// ExtractHandlerConf installs the hook
